@@ -14,6 +14,11 @@
   callback takes ownership of its argument: when it fails, the argument is dropped by the callback,
   which is logged with tag `cb`.
 
+  Drop glue: `Layout.glueT` / `Layout.glueU` say whether `T` / `U` have a destructor
+  (`mem::needs_drop`).  Dropping an element of a type without drop glue runs no code and logs
+  nothing — such drops (and such leaks) are not observable — but the slot still changes state, so
+  dropping it twice or dropping a moved-out slot is still `ub` in the model.
+
   What is *not* modelled: the allocator (sizes, capacities, alignment of the buffer), i.e. the
   buffer is an ownership token `owned | freed`.
 
@@ -66,6 +71,23 @@ inductive CbOut where
 /-- `map`: call index (= element position) → element id → outcome -/
 abbrev Callback := Nat → Nat → CbOut
 
+/-- `is_layout_identical::<T, U>()`, `is_zst::<T>()`, `mem::needs_drop::<T>()`, `mem::needs_drop::<U>()` -/
+structure Layout where
+  identical : Bool
+  zst : Bool
+  glueT : Bool := true
+  glueU : Bool := true
+  deriving DecidableEq, Repr
+
+/-- does the element type have drop glue -/
+def Layout.glue (lay : Layout) : ElemTy → Bool
+  | .T => lay.glueT
+  | .U => lay.glueU
+
+/-- a destructor run on an element of type `ty`: recorded iff the type has drop glue -/
+def Layout.logDrop (lay : Layout) (ty : ElemTy) (id : Nat) (tag : Tag) (log : Log) : Log :=
+  if lay.glue ty then log ++ [(id, tag)] else log
+
 inductive Step (α : Type) where
   | ub (site : String)
   | ok (a : α)
@@ -94,14 +116,14 @@ def Region.write (r : Region) (i : Nat) (u : Nat) : Step Region :=
     | some _ => .ok { r with slots := r.slots.set i (.liveU u) }
 
 /-- `ptr::drop_in_place(ptr.add(i) as *mut ty)` -/
-def Region.dropInPlace (ty : ElemTy) (r : Region) (i : Nat) (log : Log) : Step (Region × Log) :=
+def Region.dropInPlace (lay : Layout) (ty : ElemTy) (r : Region) (i : Nat) (log : Log) : Step (Region × Log) :=
   match r.buf with
   | .freed => .ub "drop_in_place in freed buffer"
   | .owned =>
     match r.slots[i]?, ty with
     | none, _ => .ub "drop_in_place out of bounds"
-    | some (.liveT id), .T => .ok ({ r with slots := r.slots.set i .dropped }, log ++ [(id, .T)])
-    | some (.liveU id), .U => .ok ({ r with slots := r.slots.set i .dropped }, log ++ [(id, .U)])
+    | some (.liveT id), .T => .ok ({ r with slots := r.slots.set i .dropped }, lay.logDrop .T id .T log)
+    | some (.liveU id), .U => .ok ({ r with slots := r.slots.set i .dropped }, lay.logDrop .U id .U log)
     | some (.liveT _), .U => .ub "drop_in_place of a T as U"
     | some (.liveU _), .T => .ub "drop_in_place of a U as T"
     | some .moved, _ => .ub "drop_in_place of moved-out slot"
@@ -121,12 +143,12 @@ def Region.push (r : Region) (u : Nat) : Step Region :=
   | .owned => .ok { r with slots := r.slots ++ [.liveU u] }
 
 /-- `for i in start .. start+count { drop_in_place(ptr.add(i) as *mut ty) }` -/
-def dropRange (ty : ElemTy) : (count : Nat) → (i : Nat) → Region → Log → Step (Region × Log)
+def dropRange (lay : Layout) (ty : ElemTy) : (count : Nat) → (i : Nat) → Region → Log → Step (Region × Log)
   | 0, _, r, log => .ok (r, log)
   | c + 1, i, r, log =>
-    match r.dropInPlace ty i log with
+    match r.dropInPlace lay ty i log with
     | .ub s => .ub s
-    | .ok (r', log') => dropRange ty c (i + 1) r' log'
+    | .ok (r', log') => dropRange lay ty c (i + 1) r' log'
 
 /-! ### whole-function outcomes -/
 
@@ -166,12 +188,6 @@ inductive Run where
   | ub (site : String)
   | fin (exit : Exit) (st : St)
 
-/-- `is_layout_identical::<T, U>()` and `is_zst::<T>()` -/
-structure Layout where
-  identical : Bool
-  zst : Bool
-  deriving DecidableEq, Repr
-
 /-! ### `fallible_map_vec`, in-place path -/
 
 /-- `VecMappedInPlace { ptr, len, cap, map_in_progress }` (`ptr`/`cap` are the region) -/
@@ -182,11 +198,11 @@ structure Guard where
 
 /-- `impl Drop for VecMappedInPlace`: drop `0..map_in_progress` as `U`, `map_in_progress+1..len`
     as `T`, then `Vec::from_raw_parts(ptr, 0, cap)` is dropped (frees the storage) -/
-def guardDrop (g : Guard) (r : Region) (log : Log) : Step (Region × Log) :=
-  match dropRange .U g.mapInProgress 0 r log with
+def guardDrop (lay : Layout) (g : Guard) (r : Region) (log : Log) : Step (Region × Log) :=
+  match dropRange lay .U g.mapInProgress 0 r log with
   | .ub s => .ub s
   | .ok (r1, l1) =>
-    match dropRange .T (g.len - (g.mapInProgress + 1)) (g.mapInProgress + 1) r1 l1 with
+    match dropRange lay .T (g.len - (g.mapInProgress + 1)) (g.mapInProgress + 1) r1 l1 with
     | .ub s => .ub s
     | .ok (r2, l2) =>
       match r2.free with
@@ -195,15 +211,15 @@ def guardDrop (g : Guard) (r : Region) (log : Log) : Step (Region × Log) :=
 
 /-- leaving the function through `?` (error) or by unwinding (panic) after the callback consumed
     element `id`: the callback's drop is logged, then the guard's destructor runs -/
-def failInPlace (mode : FailMode) (g : Guard) (id : Nat) (r : Region) (log : Log) : Run :=
-  match guardDrop g r (log ++ [(id, .cb)]) with
+def failInPlace (lay : Layout) (mode : FailMode) (g : Guard) (id : Nat) (r : Region) (log : Log) : Run :=
+  match guardDrop lay g r (lay.logDrop .T id .cb log) with
   | .ub s => .ub s
   | .ok (r', log') => .fin mode.exit ⟨r', none, log'⟩
 
 /-- the `for i in 0..vec.len` loop of `fallible_map_vec`, `rem` iterations left, followed by
     `vec.finish()` (`ManuallyDrop`: the guard's destructor does not run;
     `Vec::from_raw_parts(ptr as *mut U, len, cap)` takes the region over) -/
-def mapLoop (cb : Callback) : (rem : Nat) → (i : Nat) → Guard → Region → Log → Run
+def mapLoop (lay : Layout) (cb : Callback) : (rem : Nat) → (i : Nat) → Guard → Region → Log → Run
   | 0, _, _, r, log => .fin .ok ⟨r, none, log⟩
   | rem + 1, i, g, r, log =>
     match r.read i with                                   -- let val = ptr::read(place)
@@ -214,13 +230,13 @@ def mapLoop (cb : Callback) : (rem : Nat) → (i : Nat) → Guard → Region →
       | .ok u =>
         match r1.write i u with                           -- ptr::write(place as *mut U, mapped_val)
         | .ub s => .ub s
-        | .ok r2 => mapLoop cb rem (i + 1) g1 r2 log
-      | .err => failInPlace .err g1 id r1 log
-      | .panic => failInPlace .panic g1 id r1 log
+        | .ok r2 => mapLoop lay cb rem (i + 1) g1 r2 log
+      | .err => failInPlace lay .err g1 id r1 log
+      | .panic => failInPlace lay .panic g1 id r1 log
 
 /-- dropping a whole `Vec<T>` (used only by the unreachable `assert!` arm of `new`) -/
-def dropVecT (r : Region) (log : Log) : Step (Region × Log) :=
-  match dropRange .T r.slots.length 0 r log with
+def dropVecT (lay : Layout) (r : Region) (log : Log) : Step (Region × Log) :=
+  match dropRange lay .T r.slots.length 0 r log with
   | .ub s => .ub s
   | .ok (r1, l1) =>
     match r1.free with
@@ -232,18 +248,18 @@ def dropVecT (r : Region) (log : Log) : Step (Region × Log) :=
 def mapVecInPlace (lay : Layout) (cb : Callback) (ids : List Nat) : Run :=
   let r : Region := ⟨ids.map .liveT, .owned⟩
   if !lay.identical then
-    match dropVecT r [] with
+    match dropVecT lay r [] with
     | .ub s => .ub s
     | .ok (r', log) => .fin .panic ⟨r', none, log⟩
   else
-    mapLoop cb ids.length 0 ⟨ids.length, 0⟩ r []
+    mapLoop lay cb ids.length 0 ⟨ids.length, 0⟩ r []
 
 /-! ### `fallible_map_vec`, fallback path `vec.into_iter().map(map).collect()` -/
 
 /-- `Drop for vec::IntoIter<T>` with the cursor at `i`: drops the remaining `[i, len)` as `T`,
     frees the buffer -/
-def iterDrop (i : Nat) (src : Region) (log : Log) : Step (Region × Log) :=
-  match dropRange .T (src.slots.length - i) i src log with
+def iterDrop (lay : Layout) (i : Nat) (src : Region) (log : Log) : Step (Region × Log) :=
+  match dropRange lay .T (src.slots.length - i) i src log with
   | .ub s => .ub s
   | .ok (r1, l1) =>
     match r1.free with
@@ -251,8 +267,8 @@ def iterDrop (i : Nat) (src : Region) (log : Log) : Step (Region × Log) :=
     | .ok r2 => .ok (r2, l1)
 
 /-- `Drop for Vec<U>` of the partially collected result -/
-def dropVecU (dst : Region) (log : Log) : Step (Region × Log) :=
-  match dropRange .U dst.slots.length 0 dst log with
+def dropVecU (lay : Layout) (dst : Region) (log : Log) : Step (Region × Log) :=
+  match dropRange lay .U dst.slots.length 0 dst log with
   | .ub s => .ub s
   | .ok (r1, l1) =>
     match r1.free with
@@ -262,19 +278,19 @@ def dropVecU (dst : Region) (log : Log) : Step (Region × Log) :=
 /-- the callback failed on element `id` (cursor already advanced to `i`): the callback's drop is
     logged, the iterator and the partial result are dropped.  (The relative order of these two
     destructors belongs to `std`, not to chalk; the correspondence check compares multisets.) -/
-def failCollect (mode : FailMode) (i : Nat) (id : Nat) (src dst : Region) (log : Log) : Run :=
-  match iterDrop i src (log ++ [(id, .cb)]) with
+def failCollect (lay : Layout) (mode : FailMode) (i : Nat) (id : Nat) (src dst : Region) (log : Log) : Run :=
+  match iterDrop lay i src (lay.logDrop .T id .cb log) with
   | .ub s => .ub s
   | .ok (src', l1) =>
-    match dropVecU dst l1 with
+    match dropVecU lay dst l1 with
     | .ub s => .ub s
     | .ok (dst', l2) => .fin mode.exit ⟨src', some dst', l2⟩
 
 /-- `IntoIter::next` / `map` / push into the collected vector, `rem` elements left; when the
     iterator is exhausted it is dropped (frees the source buffer) and the collected vector is returned -/
-def collectLoop (cb : Callback) : (rem : Nat) → (i : Nat) → (src dst : Region) → Log → Run
+def collectLoop (lay : Layout) (cb : Callback) : (rem : Nat) → (i : Nat) → (src dst : Region) → Log → Run
   | 0, i, src, dst, log =>
-    match iterDrop i src log with
+    match iterDrop lay i src log with
     | .ub s => .ub s
     | .ok (src', log') => .fin .ok ⟨src', some dst, log'⟩
   | rem + 1, i, src, dst, log =>
@@ -285,17 +301,17 @@ def collectLoop (cb : Callback) : (rem : Nat) → (i : Nat) → (src dst : Regio
       | .ok u =>
         match dst.push u with
         | .ub s => .ub s
-        | .ok dst1 => collectLoop cb rem (i + 1) src1 dst1 log
-      | .err => failCollect .err (i + 1) id src1 dst log
-      | .panic => failCollect .panic (i + 1) id src1 dst log
+        | .ok dst1 => collectLoop lay cb rem (i + 1) src1 dst1 log
+      | .err => failCollect lay .err (i + 1) id src1 dst log
+      | .panic => failCollect lay .panic (i + 1) id src1 dst log
 
-def mapVecFallback (cb : Callback) (ids : List Nat) : Run :=
-  collectLoop cb ids.length 0 ⟨ids.map .liveT, .owned⟩ ⟨[], .owned⟩ []
+def mapVecFallback (lay : Layout) (cb : Callback) (ids : List Nat) : Run :=
+  collectLoop lay cb ids.length 0 ⟨ids.map .liveT, .owned⟩ ⟨[], .owned⟩ []
 
 /-- `fallible_map_vec` -/
 def fallibleMapVec (lay : Layout) (cb : Callback) (ids : List Nat) : Run :=
   if !lay.identical || lay.zst then
-    mapVecFallback cb ids
+    mapVecFallback lay cb ids
   else
     mapVecInPlace lay cb ids
 
@@ -303,7 +319,7 @@ def fallibleMapVec (lay : Layout) (cb : Callback) (ids : List Nat) : Run :=
 
 /-- in-place path: `Box::into_raw`, `ptr::read`, `Box<MaybeUninit<U>>::from_raw` (owns the
     allocation, never drops the contents), `map(val)?`, `ptr::write`, `Box::from_raw` -/
-def mapBoxInPlace (cb : Callback) (id : Nat) : Run :=
+def mapBoxInPlace (lay : Layout) (cb : Callback) (id : Nat) : Run :=
   let r : Region := ⟨[.liveT id], .owned⟩
   match r.read 0 with
   | .ub s => .ub s
@@ -316,16 +332,16 @@ def mapBoxInPlace (cb : Callback) (id : Nat) : Run :=
     | .err =>
       match r1.free with                      -- `raw: Box<MaybeUninit<U>>` dropped
       | .ub s => .ub s
-      | .ok r2 => .fin .err ⟨r2, none, [(v, .cb)]⟩
+      | .ok r2 => .fin .err ⟨r2, none, lay.logDrop .T v .cb []⟩
     | .panic =>
       match r1.free with
       | .ub s => .ub s
-      | .ok r2 => .fin .panic ⟨r2, none, [(v, .cb)]⟩
+      | .ok r2 => .fin .panic ⟨r2, none, lay.logDrop .T v .cb []⟩
 
 /-- fallback path `map(*b).map(Box::new)`: `*b` moves the value out of the box; the emptied box
     `b` frees its allocation when the function is left (normally or by unwinding);
     `Box::new(u)` = fresh allocation + write -/
-def mapBoxFallback (cb : Callback) (id : Nat) : Run :=
+def mapBoxFallback (lay : Layout) (cb : Callback) (id : Nat) : Run :=
   let r : Region := ⟨[.liveT id], .owned⟩
   match r.read 0 with
   | .ub s => .ub s
@@ -341,18 +357,18 @@ def mapBoxFallback (cb : Callback) (id : Nat) : Run :=
     | .err =>
       match r1.free with
       | .ub s => .ub s
-      | .ok r2 => .fin .err ⟨r2, none, [(v, .cb)]⟩
+      | .ok r2 => .fin .err ⟨r2, none, lay.logDrop .T v .cb []⟩
     | .panic =>
       match r1.free with
       | .ub s => .ub s
-      | .ok r2 => .fin .panic ⟨r2, none, [(v, .cb)]⟩
+      | .ok r2 => .fin .panic ⟨r2, none, lay.logDrop .T v .cb []⟩
 
 /-- `fallible_map_box` -/
 def fallibleMapBox (lay : Layout) (cb : Callback) (id : Nat) : Run :=
   if !lay.identical || lay.zst then
-    mapBoxFallback cb id
+    mapBoxFallback lay cb id
   else
-    mapBoxInPlace cb id
+    mapBoxInPlace lay cb id
 
 /-! ### specification vocabulary used by the theorems -/
 
